@@ -4,6 +4,7 @@ import (
 	"fmt"
 	"go/ast"
 	"go/types"
+	"sort"
 	"strings"
 
 	"golang.org/x/tools/go/ssa"
@@ -326,14 +327,57 @@ func (tr *Trans) bindResults(env *Env, ct *Contract, sig *types.Signature, res V
 	}
 }
 
-func (tr *Trans) calleeOrdinal(name string) int {
+// calleeOrdinal numbers the calls to one callee in source order (independent of block layout).
+func (tr *Trans) calleeOrdinal(name string, in ssa.Instruction) int {
+	if in == nil {
+		tr.callOrd[name]++
+		return tr.callOrd[name]
+	}
+	if tr.callRank == nil {
+		tr.callRank = map[ssa.Instruction]int{}
+		byCallee := map[string][]ssa.Instruction{}
+		for _, b := range tr.fn.Blocks {
+			for _, i := range b.Instrs {
+				var cc *ssa.CallCommon
+				switch x := i.(type) {
+				case *ssa.Call:
+					cc = &x.Call
+				case *ssa.Defer:
+					cc = &x.Call
+				case *ssa.Go:
+					cc = &x.Call
+				}
+				if cc == nil {
+					continue
+				}
+				k := ""
+				if cc.IsInvoke() {
+					k = ifaceMethodKey(cc.Value.Type(), cc.Method.Name())
+				} else if sc := cc.StaticCallee(); sc != nil {
+					k = sc.String()
+				} else {
+					k = "dyn"
+				}
+				byCallee[k] = append(byCallee[k], i)
+			}
+		}
+		for _, list := range byCallee {
+			sort.SliceStable(list, func(a, b int) bool { return list[a].Pos() < list[b].Pos() })
+			for n, i := range list {
+				tr.callRank[i] = n + 1
+			}
+		}
+	}
+	if n, ok := tr.callRank[in]; ok {
+		return n
+	}
 	tr.callOrd[name]++
 	return tr.callOrd[name]
 }
 
 func (tr *Trans) applyContract(ct *Contract, fn *ssa.Function, sig *types.Signature, args []Val, in ssa.Instruction, resT types.Type, key string, invoke bool) Val {
 	short := strings.ReplaceAll(key, "github.com/bbockelm/cedar/", "")
-	ord := tr.calleeOrdinal(short)
+	ord := tr.calleeOrdinal(short, in)
 	pre := tr.st.clone()
 	names := tr.paramNames(ct, fn, sig, invoke)
 	mkEnv := func(preS, postS *State) *Env {
